@@ -7,6 +7,8 @@
 //!   3 m <name> ty        typed read   prop::<T>(name)            on module m (mod #modules)
 //!   4 m <name> ty val    typed write  prop::<T>(name)?.set(val)  on module m
 //!   5 m <name>           raw read     prop_raw(name).as_value()  on module m
+//!   7 at                 closes the current include and opens the next one: the entries (op 1) that follow belong to
+//!                        a separate configuration, included once `at` modules exist (the first uses `inc_at`)
 //!   6 <key> val          late include: a further configuration  "key": val  is included when all nodes
 //!                        exist, in script order between the typed accesses (3/4/5/6 run in order)
 //! ty (mod 4): 0 u64, 1 i64, 2 String (decimal digits), 3 bool.
@@ -17,7 +19,9 @@
 //! state of every module's properties, like <dump> with tag 12; a slot that exists but holds nothing
 //! is listed with value `6`) where 100 = des_net_utils::props
 //! alone (YAML text -> from_str -> Cfg::new -> capture_for_into(path)), 200 = through des
-//! (Sim::include_cfg issued after `inc_at` of the modules have been created with sim.node; missing
+//! (every include of the script issued through Sim::include_cfg at its point of the sim.node sequence - before
+//! node i the pending includes scheduled for i, the rest after the last node; level 100 captures from the same
+//! sequence of Cfgs in turn; <cfg> = `g f1 .. fg`, one flag per include; missing
 //! ancestors are created on the fly).  <cfg> = 0 (YAML accepted) | 5 (rejected);
 //! <dump> = `10 n (<name> <value>)*n` sorted by name; <value> = `0 v` number | `1 n (<key> <value>)*n`
 //! mapping | `2 v` string of digits | `3 b` bool | `4` anything else | `6` absent;
@@ -250,8 +254,8 @@ fn run_line(nums: &[u64]) -> Vec<u64> {
     if c.done() {
         return vec![7];
     }
-    let inc_at = c.next() as usize;
-    let mut entries: Vec<(String, u64)> = Vec::new();
+    let inc_at = c.next();
+    let mut groups: Vec<(u64, Vec<(String, u64)>)> = vec![(inc_at, Vec::new())];
     let mut paths: Vec<String> = Vec::new();
     let mut ops: Vec<Op> = Vec::new();
     let mut valid = true;
@@ -270,7 +274,7 @@ fn run_line(nums: &[u64]) -> Vec<u64> {
                 c.next();
                 let k = text(&mut c, &mut valid);
                 let v = c.next();
-                entries.push((k, v));
+                groups.last_mut().unwrap().1.push((k, v));
             }
             Some(2) => {
                 c.next();
@@ -307,13 +311,28 @@ fn run_line(nums: &[u64]) -> Vec<u64> {
                 let v = c.next();
                 ops.push(Op::Include(k, v));
             }
+            Some(7) => {
+                c.next();
+                let at = c.next();
+                groups.push((at, Vec::new()));
+            }
             _ => break,
         }
     }
     if !valid {
         return vec![7];
     }
-    let yaml = yaml_text(&entries);
+    let n = paths.len();
+    let yamls: Vec<(usize, String)> = groups
+        .iter()
+        .map(|(at, es)| ((*at).min(n as u64) as usize, yaml_text(es)))
+        .collect();
+    // the order in which the includes are issued: before node i those scheduled for i, the rest at the end
+    let mut order: Vec<usize> = Vec::new();
+    for i in 0..n {
+        order.extend((0..yamls.len()).filter(|g| yamls[*g].0 == i));
+    }
+    order.extend((0..yamls.len()).filter(|g| yamls[*g].0 >= n));
     let mut out = Vec::new();
 
     // ---- level (i): des_net_utils::props alone
@@ -321,22 +340,22 @@ fn run_line(nums: &[u64]) -> Vec<u64> {
     let r = catch_unwind(AssertUnwindSafe(|| {
         let mut o = Vec::new();
         let mut all = Vec::new();
-        let cfg = match serde_yml::from_str::<Value>(&yaml) {
-            Ok(v) => {
-                o.push(0);
-                Some(Cfg::new(v))
-            }
-            Err(_) => {
-                o.push(5);
-                None
-            }
-        };
+        o.push(yamls.len() as u64);
+        let parsed: Vec<Option<Cfg>> = yamls
+            .iter()
+            .map(|(_, y)| serde_yml::from_str::<Value>(y).ok().map(Cfg::new))
+            .collect();
+        for c in &parsed {
+            o.push(if c.is_some() { 0 } else { 5 });
+        }
         for p in &paths {
             let parts: Vec<&str> = p.split('.').collect();
-            let mut props = match &cfg {
-                Some(cfg) => cfg.capture_for_into(&parts),
-                None => Props::default(),
-            };
+            let mut props = Props::default();
+            for g in &order {
+                if let Some(cfg) = &parsed[*g] {
+                    cfg.capture_for(&parts, &mut props);
+                }
+            }
             let keys = props.keys();
             dump(&mut o, 10, keys, |k| props.get_raw(k));
             all.push((parts.iter().map(|s| s.to_string()).collect(), props));
@@ -356,11 +375,11 @@ fn run_line(nums: &[u64]) -> Vec<u64> {
     out.push(200);
     let r = catch_unwind(AssertUnwindSafe(|| {
         let mut sim = Sim::new(());
-        let mut included = false;
         for (i, p) in paths.iter().enumerate() {
-            if i == inc_at {
-                sim.include_cfg(&yaml);
-                included = true;
+            for (at, y) in &yamls {
+                if *at == i {
+                    sim.include_cfg(y);
+                }
             }
             // ancestors first
             let parts: Vec<&str> = p.split('.').collect();
@@ -371,8 +390,10 @@ fn run_line(nums: &[u64]) -> Vec<u64> {
                 }
             }
         }
-        if !included {
-            sim.include_cfg(&yaml);
+        for (at, y) in &yamls {
+            if *at >= n {
+                sim.include_cfg(y);
+            }
         }
         let mut o = Vec::new();
         let mut refs = Vec::new();
